@@ -27,13 +27,13 @@ class OSCOutputDevice(OutputDevice):
             raise Exception("python-osc must be installed")
 
     def note_on(self, note=60, velocity=64, channel=0):
-        self.osc.send_message("/note", velocity, channel)
+        self.osc.send_message("/note", [note, velocity, channel])
 
     def note_off(self, note=60, channel=0):
-        self.osc.send_message("/note", 0, channel)
+        self.osc.send_message("/note", [note, 0, channel])
 
     def control(self, control, value, channel=0):
-        self.osc.send_message("/control", value, channel)
+        self.osc.send_message("/control", [control, value, channel])
 
     def send(self, address, params=None):
         if params is not None:
